@@ -857,7 +857,15 @@ class _PieceStream(Stream):
         return {"triple": triple_cases, "pair": pair_cases, "random": random_cases}[self.family](ctx)
 
     def impl(self, case):
-        return {lvl: IMPLS[lvl](case) for lvl in LEVELS}
+        out = {}
+        for lvl in LEVELS:
+            try:
+                out[lvl] = IMPLS[lvl](case)
+            except (IndexError, KeyError, AttributeError) as e:
+                # the white-box `match` level reads the regex's named groups; a refactor that renames them must not
+                # take the behavioural levels (tokens, nodes, render) and their oracle down with it (seeded C10-3)
+                out[lvl] = {"err": f"level-unobservable:{type(e).__name__}"}
+        return out
 
     def line(self, case):
         return ["c10_all", delims(case), case["ps"]]
